@@ -328,3 +328,43 @@ mod tests {
         assert!(result.is_err());
     }
 }
+
+#[cfg(feature = "verif")]
+impl Lexicon {
+    /// Builds a lexicon from a serialized crawdad trie (whose values are offsets into
+    /// `postings`), the interleaved postings array, and the per-word vectors.
+    pub fn verif_from_parts(
+        trie_bytes: &[u8],
+        postings: Vec<u32>,
+        params: Vec<WordParam>,
+        features: Vec<String>,
+        lex_type: LexType,
+    ) -> Self {
+        Self {
+            map: WordMap::verif_from_parts(trie_bytes, postings),
+            params: WordParams::new(params),
+            features: WordFeatures::new(features),
+            lex_type,
+        }
+    }
+
+    pub fn verif_parse_csv<'a>(bytes: &'a [u8], name: &'static str) -> Result<Vec<RawWordEntry<'a>>> {
+        Self::parse_csv(bytes, name)
+    }
+
+    pub fn verif_num_words(&self) -> usize {
+        self.params.len()
+    }
+
+    pub fn verif_trie_bytes(&self) -> Vec<u8> {
+        self.map.verif_trie_bytes()
+    }
+
+    pub fn verif_postings(&self) -> &[u32] {
+        self.map.verif_postings()
+    }
+
+    pub const fn verif_lex_type(&self) -> LexType {
+        self.lex_type
+    }
+}
